@@ -166,7 +166,8 @@ def run(ctx):
               key="new state_active inputs", node=f, rel="decorators/state.py")
     st = program.cls("decorators/state.py::StateTriggerDecorator")
     disp = [n for n in ast.walk(st) if isinstance(n, ast.Call) and call_name(n) == "DispatchData"]
-    ok = bool(disp) and all(any(k.arg == "trigger_context" and "'new_vars': self.last_new_vars" in norm(k.value) for k in d.keywords) for d in disp)
+    ok = bool(disp) and all(any(k.arg == "trigger_context" and isinstance(k.value, ast.Dict) and any(isinstance(x, ast.Constant) and x.value == "new_vars" for x in k.value.keys)
+                                 for k in d.keywords) for d in disp)
     ctx.check(ok, "R07.6", "decorators/state.py::StateTriggerDecorator", "state trigger dispatches carry the event's new_vars", msg="a state trigger dispatch no longer passes trigger_context={'new_vars': ...}",
               key="dispatch carries new_vars", node=st, rel="decorators/state.py")
     ctx.check("active_vars = State.notify_var_get(self.state_active_ident, new_vars)" in norm(tw) and "self.active_expr.eval(active_vars)" in norm(tw), "R07.6", "trigger.py::TrigInfo.trigger_watch",
